@@ -486,10 +486,16 @@ fn small_int(field: &[u8]) -> Option<i64> {
     let t = rtrim(field, b" ");
     let s = std::str::from_utf8(&t).ok()?;
     let digits = s.strip_prefix('-').unwrap_or(s);
-    if digits.is_empty() || digits.len() > 3 || !digits.bytes().all(|b| b.is_ascii_digit()) {
+    if digits.is_empty() || digits.len() > 10 || !digits.bytes().all(|b| b.is_ascii_digit()) {
         return None;
     }
-    s.parse::<i64>().ok()
+    s.parse::<i64>().ok().filter(|v| v.abs() <= 2147483647)
+}
+
+/// A numeric variable type that holds the whole number `v` exactly and prints it digit by digit
+/// (beyond three digits only LONG and DOUBLE are drawn: the value must come back unchanged through them).
+fn num_type_for(t: &mut Tape, v: i64) -> VarT {
+    if v.abs() <= 999 { num_type(t) } else { *t.pick(&[VarT::Long, VarT::Dbl, VarT::Long]) }
 }
 
 fn ok_outcome(class: String, substantive: bool) -> Outcome {
@@ -1386,7 +1392,7 @@ fn build_case(h: &Hist, mode: PMode) -> Result<Built, &'static str> {
 // generator 1: histories, steered by the model
 // ------------------------------------------------------------------------------------------------
 
-const WORDS: [&str; 16] = ["a", "xy", "hello", "Q", "x y", "7", "12", "-3", "B2", "a b c", "0", ".", "W w", "405", "\u{e9}t\u{e9}", "na\u{ef}f \u{fc}"];
+const WORDS: [&str; 20] = ["a", "xy", "hello", "Q", "x y", "7", "12", "-3", "B2", "a b c", "0", ".", "W w", "405", "\u{e9}t\u{e9}", "na\u{ef}f \u{fc}", "16777217", "123456789", "-2147483647", "40000"];
 
 /// One text field: a word, possibly empty, possibly with blanks at its edges.
 fn gen_field(t: &mut Tape) -> String {
@@ -1415,6 +1421,13 @@ fn gen_line(t: &mut Tape) -> String {
 fn gen_payload(t: &mut Tape) -> Vec<u8> {
     let n = t.choose(5);
     let mut v = vec![];
+    if t.chance(1, 8) {
+        // a long first line whose CR LF falls on / next to a power-of-two offset (where a reader's buffer may end)
+        let len = *t.pick(&[511usize, 1023, 4095, 8191, 255]) + t.choose(3) - 1;
+        v.extend(std::iter::repeat(b'x').take(len - 1));
+        v.push(b'y');
+        v.extend_from_slice(b"\r\n");
+    }
     for i in 0..n {
         let l = if t.chance(1, 8) { String::new() } else { gen_line(t) };
         v.extend_from_slice(l.as_bytes());
@@ -1487,13 +1500,25 @@ fn gen_input(t: &mut Tape, m: &Model, h: usize, n: usize) -> Op {
         .unwrap_or_default();
     for _ in 0..n {
         let numeric = match read_field(&bytes, &mut pos) {
-            FieldRead::Val(v) => small_int(&v).is_some(),
-            _ => false,
+            FieldRead::Val(v) => small_int(&v),
+            _ => None,
         };
         let want_num = t.chance(2, 3);
-        vars.push(if numeric && want_num { num_type(t) } else { VarT::Str });
+        vars.push(match numeric {
+            Some(v) if want_num => num_type_for(t, v),
+            _ => VarT::Str,
+        });
     }
     Op::Input { h, vars }
+}
+
+/// A record number: mostly 1..5 (so that records are overwritten and re-read), now and then beyond the INTEGER range
+/// (record numbers are LONGs).
+fn gen_recno(t: &mut Tape) -> i64 {
+    match t.choose(8) {
+        7 => *t.pick(&[32768i64, 40000, 32767, 70001]),
+        _ => 1 + t.choose(5) as i64,
+    }
 }
 
 fn gen_widths(t: &mut Tape, reclen: usize) -> Vec<usize> {
@@ -1669,10 +1694,10 @@ fn gen_progress(t: &mut Tape, m: &Model, h: usize) -> Option<Op> {
                         let i = t.choose(w.len());
                         Op::Lset { h, list: tl, idx: i, val: gen_lset_val(t, w[i]) }
                     }
-                    1 | 2 | 3 => Op::Put { h, rec: 1 + t.choose(5) as i64 },
+                    1 | 2 | 3 => Op::Put { h, rec: gen_recno(t) },
                     4 | 5 | 6 if !recs.is_empty() => Op::Get { h, rec: recs[t.choose(recs.len())] },
                     7 if recs.len() >= 2 => Op::Close(vec![h]),
-                    _ => Op::Put { h, rec: 1 + t.choose(5) as i64 },
+                    _ => Op::Put { h, rec: gen_recno(t) },
                 })
             }
         },
@@ -2141,8 +2166,11 @@ fn duo_case(sh: &mut Shard, tape: &[u32]) -> Result<(), Violation> {
         for _ in 0..n {
             match read_field(&stream, &mut p) {
                 FieldRead::Val(v) => {
-                    let numeric = small_int(&v).is_some() && t.chance(2, 3);
-                    vars.push(if numeric { num_type(&mut t) } else { VarT::Str });
+                    let numeric = small_int(&v).filter(|_| t.chance(2, 3));
+                    vars.push(match numeric {
+                        Some(n) => num_type_for(&mut t, n),
+                        None => VarT::Str,
+                    });
                 }
                 _ => {
                     ok = false;
